@@ -118,16 +118,18 @@ fn parse(input: &str) -> Parsed {
 }
 
 fn main() {
-    let mut cfg_path = String::new();
-    for a in std::env::args().skip(1) {
-        if let Some(p) = a.strip_prefix("cfg=") {
-            cfg_path = p.to_string();
-        }
-    }
-    let cfg: Value = std::fs::read_to_string(&cfg_path)
-        .ok()
-        .and_then(|s| serde_json::from_str(&s).ok())
-        .unwrap_or_else(|| json!({}));
+    // Exactly the arguments the harness passes are accepted: a torn, duplicated or missing
+    // option makes this solver refuse to run (no output, exit status 64), as a real solver
+    // started with a wrong command line would.
+    let args: Vec<String> = std::env::args().skip(1).collect();
+    let cfg_path = match args.as_slice() {
+        [one] if one.starts_with("cfg=") => one["cfg=".len()..].to_string(),
+        _ => std::process::exit(64),
+    };
+    let cfg: Value = match std::fs::read_to_string(&cfg_path).ok().and_then(|s| serde_json::from_str(&s).ok()) {
+        Some(v) => v,
+        None => std::process::exit(64),
+    };
     let logp = cfg["log"].as_str().unwrap_or("").to_string();
     let pid = std::process::id();
     // invocation index = number of "start" events already logged
